@@ -4,5 +4,9 @@ set -eu
 export CARGO_NET_OFFLINE=true
 cd /verif
 mkdir -p work evidence replays
+# in-process simulators (C11 C12 C13 C14 C16)
 ( cd sim && cargo build --release -p rt )
+# process-level compiler simulator (C09 C10): std JSON docs, LD_PRELOAD shim, pavexc, fixture workspace,
+# warm cache snapshots, per-slot target dirs, goldens
+/verif/sim/comp/setup_comp.sh
 echo "setup done"
